@@ -367,6 +367,12 @@ func (s *FileSystemSigner) loadKeys(passphrase []byte) error {
 		return fmt.Errorf("failed to unmarshal public key: %w", err)
 	}
 
+	// The public key is stored in the clear, next to the encrypted private key,
+	// and is not authenticated: make sure it really is the private key's.
+	if !privKey.GetPublic().Equals(pubKey) {
+		return fmt.Errorf("public key in key file does not match the private key")
+	}
+
 	// Set the keys
 	s.privateKey = privKey
 	s.publicKey = pubKey
